@@ -38,8 +38,9 @@ class LambdaTokenTranslator(AbstractTranslator):
                 operator, operand = parsed_literal[0]
                 condition_symbol = {'<>': '!=', '=': '=='}.get(operator, operator)
 
-                if re.fullmatch(r'(\d+)((\.)(\d+))?(e(-?\d+))?', operand):
-                    condition_value = operand
+                if re.fullmatch(r'([0-9]+)((\.)([0-9]+))?(e(-?[0-9]+))?', operand):
+                    # the number the text denotes, written as python writes it: ">007" is > 7 (007 is no python number)
+                    condition_value = repr(int(operand) if operand.isdigit() else float(operand))
                 elif operand:
                     condition_value = repr(cls._without_escapes(operand))
                 else:
